@@ -13,8 +13,6 @@ REQUIRED_BRANCHES = [
     # the in-memory-merge path of the persister, forced by holding it at the grab (memmerge), with a fault on each of its I/O steps
     "equiv", "memmerge:unpersisted-segments-behind-held-persister", "fault:snapshot-write-after-in-memory-merge",
     "fault:merged-segment-write-in-memory-merge", "fault:merged-segment-load-in-memory-merge",
-    # one transient fault on a directory call of OpenWriter reopening a non-empty index
-    "fault:list-segments-at-open", "fault:list-snapshots-at-open", "fault:lock-at-open",
 ]
 ASSUMPTIONS = [
     "PersistExact = Event.exact (C13) as in C02/C03; a Persist that returns an error has removed its file (C13 persist_fail_clean) — checked here by the directory listing after every failed write",
@@ -40,8 +38,6 @@ def signature(rec):
         return "persist-not-exact"
     if v.startswith("bad:async-error-not-fired"):
         return "async-error-not-fired"
-    if v.startswith("bad:open-fault-not-reported"):
-        return "open-fault-not-reported"
     if v.startswith("bad:acknowledgement-released-after-failed-persist"):
         return "persist-error-dropped-ack-released"
     if v.startswith("bad:acknowledgement-never-delivered"):
